@@ -62,6 +62,7 @@ PROPS = {
     ),
     'C03': dict(
         level='proof',
+        kani=['format', 'units', 'timespec', 'filetype', 'permission'],
         scope='every function verified in place (see coverage.functions_verified_for_safety) is proved free of panics (unwrap, unreachable!, '
               'todo!, index), arithmetic overflow and non-termination, for all parser-shaped trees with fewer than 2^30 nodes, under '
               'both debug_assertions settings; lifted front-end fragments with unwrap()s are decided by Kani over the domain the '
@@ -71,12 +72,14 @@ PROPS = {
     ),
     'C17': dict(
         level='proof',
+        kani=['format'],
         scope='the same functional postconditions are discharged with -C debug-assertions=on and =off and overflow freedom is proved, so '
               'neither cfg(debug_assertions) arms nor overflow checking can be observed through a function under contract.',
         not_decided=['front end (combinator code)'],
     ),
     'C07': dict(
         level='proof',
+        kani=['units', 'timespec', 'permission'],
         scope='count*unit: Size::byte_size returns exactly count*unit for every u64 count (128-bit result, overflow freedom proved); '
               'unit tables (C19); the thread count and comparison operands reach the emitted text without narrowing conversions.',
         not_decided=['digit run -> integer (str::parse::<uN>, winnow glue)'],
